@@ -249,6 +249,8 @@ pub struct Gen<'a> {
     /// bias of the random code
     loopy: bool,
     cally: bool,
+    long_blocks: bool,
+    split_calls: bool,
 }
 
 impl<'a> Gen<'a> {
@@ -604,7 +606,54 @@ impl<'a> Gen<'a> {
             // symbol not imported by this program: nothing to call
             return Some(b);
         };
-        self.setup_args(&mut b, args);
+        if self.split_calls && !self.p.stack_args && self.r.chance(35) {
+            // The argument values are computed into scratch registers in one basic block; the call
+            // site in the next block moves them into the parameter registers (value computed before a
+            // join point, moved at the call). In between there may be a long run of instructions
+            // that define many temporaries (immediates, frame addresses, register copies).
+            let p = self.p;
+            let scratch: Vec<&'static str> = p.gpr.iter().copied().filter(|g| !p.params.contains(g) && *g != p.ret).collect();
+            let mut moved: Vec<(usize, &'static str)> = Vec::new();
+            for (i, a) in args.iter().enumerate() {
+                if i >= p.params.len() || i >= scratch.len() {
+                    break;
+                }
+                if matches!(a, ArgV::Keep) {
+                    continue;
+                }
+                let v = self.arg_value(&mut b, a);
+                b.next_insn();
+                b.def(Some(reg(scratch[i], p.ptr)), expr("COPY", &[v]));
+                moved.push((i, scratch[i]));
+            }
+            let mid = next_addr - 0x20;
+            if self.r.chance(60) {
+                for _ in 0..self.r.range(50, 130) {
+                    let t = self.u(p.ptr);
+                    b.next_insn();
+                    match self.r.below(3) {
+                        0 => b.def(Some(t.clone()), expr("INT_ADD", &[reg(p.sp, p.ptr), cst(self.r.below(64) * 8, p.ptr)])),
+                        1 => b.def(Some(t.clone()), expr("COPY", &[cst(self.r.below(4096), p.ptr)])),
+                        _ => b.def(Some(t.clone()), expr("COPY", &[reg(p.fp, p.ptr)])),
+                    }
+                    if self.r.chance(40) {
+                        b.def(None, expr("STORE", &[cst(SPACE_ID, 4), reg(p.sp, p.ptr), t]));
+                    }
+                }
+            }
+            b.next_insn();
+            let jt = b.jmp_tid();
+            b.jmps.push(json!({"tid": jt, "term": {"mnemonic": "BRANCH", "goto": {"Direct": tid(format!("blk_{}", hex(mid)), &hex(mid))}}}));
+            out.push(b);
+            self.note_addr(mid);
+            b = Blk::new(mid, None);
+            for (i, sc) in moved {
+                b.next_insn();
+                b.def(Some(reg(p.params[i], p.ptr)), expr("COPY", &[reg(sc, p.ptr)]));
+            }
+        } else {
+            self.setup_args(&mut b, args);
+        }
         let r = self.end_with_call(b, CallTarget::Extern(addr, no_return), next_addr, out);
         // cdecl: the caller removes the arguments
         match r {
@@ -801,7 +850,10 @@ impl<'a> Gen<'a> {
                     b.def(Some(reg(p.sp, p.ptr)), expr("INT_AND", &[reg(p.sp, p.ptr), cst(0xfffffffffffffff0, p.ptr)]));
                 }
             }
-            for _ in 0..self.r.below(7) {
+            // mostly short blocks; now and then a long straight-line block (unrolled loops, big
+            // initialisers) with far more live variables than registers
+            let n_insn = if self.long_blocks && self.r.chance(25) { self.r.range(60, 160) } else { self.r.below(7) };
+            for _ in 0..n_insn {
                 self.random_insn(&mut b);
             }
             let mut cur = Some(b);
@@ -881,7 +933,14 @@ impl<'a> Gen<'a> {
                     out.push(b);
                 }
                 (3, Some(_)) => {
-                    let t = pick_target(&mut self.r);
+                    // mostly a jump inside the function; sometimes into a block of another function
+                    // (shared tails: the analyzer duplicates such blocks per function)
+                    let t = if self.r.chance(20) {
+                        let f = self.func_addrs[self.r.below(self.func_addrs.len() as u64) as usize];
+                        f + 0x40 * self.r.below(3)
+                    } else {
+                        pick_target(&mut self.r)
+                    };
                     b.next_insn();
                     let jt = b.jmp_tid();
                     b.jmps.push(json!({"tid": jt, "term": {"mnemonic": "BRANCH", "goto": {"Direct": tid(format!("blk_{}", hex(t)), &hex(t))}}}));
@@ -942,6 +1001,33 @@ impl<'a> Gen<'a> {
                     self.setup_args(&mut b, &args);
                     if self.end_with_call(b, CallTarget::Extern(e.1, e.4), f, &mut out).is_some() && p.stack_args && !args.is_empty() {
                         // argument clean-up lands at the start of the fall-through block: skipped here on purpose
+                    }
+                }
+            }
+        }
+        // trampolines and busy loops: blocks that consist of a single BRANCH (`for(;;);`, jump
+        // tables compiled to jump chains, padding thunks). Targets are other trampolines or body blocks.
+        if self.r.chance(25) {
+            let n = self.r.range(2, 4) as usize;
+            let tramp: Vec<u64> = (0..n).map(|_| slots()).collect();
+            for (k, a) in tramp.iter().enumerate() {
+                self.note_addr(*a);
+                let mut b = Blk::new(*a, None);
+                let t = if self.r.chance(70) { tramp[self.r.below(n as u64) as usize] } else { planned[self.r.below(planned.len() as u64) as usize] };
+                if self.r.chance(20) {
+                    // a dead assignment that the optimiser removes, leaving a jump-only block
+                    b.def(Some(reg(p.flags.first().copied().unwrap_or(p.ret), if p.flags.is_empty() { p.ptr } else { 1 })), expr("COPY", &[cst(0, if p.flags.is_empty() { p.ptr } else { 1 })]));
+                }
+                b.next_insn();
+                let jt = b.jmp_tid();
+                b.jmps.push(json!({"tid": jt, "term": {"mnemonic": "BRANCH", "goto": {"Direct": tid(format!("blk_{}", hex(t)), &hex(t))}}}));
+                out.push(b);
+                // route one body block into the chain
+                if k == 0 {
+                    if let Some(src) = out.iter_mut().find(|x| x.jmps.len() == 1 && x.jmps[0]["term"]["mnemonic"] == "BRANCH" && !tramp.contains(&x.addr)) {
+                        src.jmps[0]["term"]["goto"] = json!({"Direct": tid(format!("blk_{}", hex(*a)), &hex(*a))});
+                    } else if let Some(src) = out.iter_mut().find(|x| x.jmps.len() == 2) {
+                        src.jmps[0]["term"]["goto"] = json!({"Direct": tid(format!("blk_{}", hex(*a)), &hex(*a))});
                     }
                 }
             }
@@ -1113,6 +1199,8 @@ pub fn generate(seed: u64) -> Workload {
         meta,
         loopy: r.chance(35),
         cally: r.chance(50),
+        long_blocks: r.chance(30),
+        split_calls: r.chance(40),
     };
     let _ = g.text;
     // distribute gadgets over functions
